@@ -110,13 +110,23 @@ class Clock:
 
 CLOCK = Clock()
 _CLOCK_MODULES = ['deep.processor.context.trigger_context', 'deep.processor.frame_collector',
+                  'deep.processor.context.snapshot_action',
                   'deep.api.tracepoint.eventsnapshot', 'deep.poll.poll', 'deep.utils']
 _real_time_ns = deep.utils.time_ns
 
 
-def install_clock():
+def _clock_modules():
+    # every module of the agent that has bound the clock function at import (a later revision can add one)
     import importlib
     for m in _CLOCK_MODULES:
+        importlib.import_module(m)
+    return sorted(set(_CLOCK_MODULES) | {n for n, mod in list(sys.modules.items())
+                                         if n.startswith('deep.') and mod is not None and hasattr(mod, 'time_ns')})
+
+
+def install_clock():
+    import importlib
+    for m in _clock_modules():
         mod = importlib.import_module(m)
         if hasattr(mod, 'time_ns'):
             setattr(mod, 'time_ns', CLOCK.now_ns)
@@ -124,7 +134,7 @@ def install_clock():
 
 def uninstall_clock():
     import importlib
-    for m in _CLOCK_MODULES:
+    for m in _clock_modules():
         mod = importlib.import_module(m)
         if hasattr(mod, 'time_ns'):
             setattr(mod, 'time_ns', _real_time_ns)
